@@ -1,26 +1,31 @@
 #!/bin/bash
-# usage: tools/mutant_eval.sh <PROP> <TAG> <demo-package-dir> [checks...]
-# Confirms a seeded change (patch + demonstration from /tmp/wt/out) in a scratch worktree:
-# suite passes with the patch, demo passes without and fails with it; then applies it to /repo,
-# runs the named checks (default: the property's own, quick), reverts, and files the result
-# under /verif/seeded/<PROP>_<TAG>/.
+# usage: tools/mutant_eval.sh <PROP> <TAG> [extra checks...]
+# Confirms a seeded change delivered by a sub-agent in /tmp/wt/out (patch + demonstration + notes)
+# in a scratch worktree: the repository suite passes with the patch, the demonstration passes
+# without it and fails with it. Then runs the property's quick check (and any extra checks)
+# against the patched tree on scratch copies (tools/scratch_eval.sh; /repo is not touched) and
+# files everything under /verif/seeded/<PROP>_<TAG>/.
 set -u
 export GOFLAGS=-mod=mod GOPROXY=off GOSUMDB=off GOTOOLCHAIN=local
-P=$1; T=$2; DIR=${3:-.}; shift 3 || true
-CHECKS=${*:-$P}
-OUT=/tmp/wt/out
+P=$1; T=$2; shift 2
+EXTRA=$*
+OUT=${MUT_OUT:-/tmp/wt/out}
 PATCH=$OUT/${P}_${T}.patch.diff
 DEMO=$OUT/${P}_${T}_demo_test.go
-W=/tmp/wt/eval_${P}_${T}
+NOTES=$OUT/${P}_${T}_meta.txt
 [ -s "$PATCH" ] || { echo "no patch $PATCH"; exit 2; }
+[ -s "$DEMO" ] || { echo "no demo $DEMO"; exit 2; }
+DIR=$(grep -m1 '^demo_dir:' "$NOTES" 2>/dev/null | sed 's/^demo_dir:[[:space:]]*//; s/[[:space:]]*$//; s/^"//; s/"$//')
+DIR=${DIR:-.}
+W=/tmp/wt/eval_${P}_${T}_$$
 git -C /repo worktree add -q --detach "$W" HEAD || exit 2
-trap 'git -C /repo worktree remove --force "$W" >/dev/null 2>&1' EXIT
-res() { echo "$1"; }
+trap 'git -C /repo worktree remove --force "$W" >/dev/null 2>&1; git -C /repo worktree prune' EXIT
+if grep -q '^+++ b/.*_test\.go' "$PATCH"; then echo "MUTANT NOT CONFIRMED: patch touches test files"; exit 3; fi
 DEMOFILE="$W/$DIR/zz_demo_${T}_test.go"
-cp "$DEMO" "$DEMOFILE"
+cp "$DEMO" "$DEMOFILE" || exit 2
 clean_demo=$(cd "$W/$DIR" && go test -vet=off -count=1 -run "TestDemo${T}\$" . 2>&1 | tail -1)
 rm -f "$DEMOFILE"
-git -C "$W" apply "$PATCH" || { echo "patch does not apply"; exit 2; }
+git -C "$W" apply "$PATCH" || { echo "MUTANT NOT CONFIRMED: patch does not apply"; exit 3; }
 suite=$(cd "$W" && go test -vet=off -count=1 ./... 2>&1 | grep -v "no test files" | grep -v "^ok" | head -5)
 cp "$DEMO" "$DEMOFILE"
 mut_demo=$(cd "$W/$DIR" && go test -vet=off -count=1 -run "TestDemo${T}\$" . 2>&1 | tail -1)
@@ -31,34 +36,17 @@ echo "demo with patch    : $mut_demo"
 ok=1
 case "$clean_demo" in ok*) ;; *) ok=0;; esac
 [ -z "$suite" ] || ok=0
-case "$mut_demo" in FAIL*|*FAIL*) ;; *) ok=0;; esac
+case "$mut_demo" in *FAIL*) ;; *) ok=0;; esac
 if [ $ok = 0 ]; then echo "MUTANT NOT CONFIRMED"; exit 3; fi
-# run the checks against /repo with the patch applied
-cd /verif
-git -C /repo apply "$PATCH" || exit 2
-declare -A RESULT
-for ch in $CHECKS; do
-	start=$(date +%s)
-	out=$(./vcheck "$ch" quick 2>/dev/null); rc=$?
-	RESULT[$ch]="rc=$rc $(echo "$out" | grep -c '^VIOLATION') violation lines, $(( $(date +%s) - start ))s"
-	echo "check $ch quick: ${RESULT[$ch]}"
-	echo "$out" | grep '^VIOLATION' | head -3
-done
-git -C /repo checkout -- . ; git -C /repo status --short | head -3
-for ch in $CHECKS; do rm -rf /verif/replays/$ch; done
 D=/verif/seeded/${P}_${T}
 mkdir -p "$D"
-cp "$PATCH" "$D/patch.diff"; cp "$DEMO" "$D/demo_test.go"; cp "$OUT/${P}_${T}_meta.txt" "$D/agent_notes.txt" 2>/dev/null
-{
-	echo "{"
-	echo " \"property\": \"$P\", \"tag\": \"$T\", \"demo_package_dir\": \"$DIR\","
-	echo " \"confirmed\": {\"demo_on_clean_tree\": \"$clean_demo\", \"suite_with_patch\": \"all packages ok\", \"demo_with_patch\": \"$(echo $mut_demo | tr -d '\"')\"},"
-	echo " \"checks\": {"
-	first=1
-	for ch in $CHECKS; do [ $first = 1 ] || echo ","; first=0; echo -n "  \"$ch quick\": \"${RESULT[$ch]}\""; done
-	echo ""
-	echo " }"
-	echo "}"
-} > "$D/meta.json"
-# restore evidence files of the checks that were run on the patched tree
-for ch in $CHECKS; do ./vcheck "$ch" quick >/dev/null 2>&1; done
+cp "$PATCH" "$D/patch.diff"; cp "$DEMO" "$D/demo_test.go"; cp "$NOTES" "$D/agent_notes.txt" 2>/dev/null
+[ -n "$EXTRA" ] && echo "$EXTRA" > "$D/also_run"
+python3 - "$D" "$P" "$T" "$DIR" "$clean_demo" "$mut_demo" <<'PY'
+import json,sys
+d,p,t,dir_,cd,md=sys.argv[1:7]
+json.dump({"property":p,"tag":t,"id":f"{p}_{t}","demo_package_dir":dir_,
+ "confirmed":{"demo_on_clean_tree":' '.join(cd.split()),"suite_with_patch":"all packages ok","demo_with_patch":' '.join(md.split())}},
+ open(d+"/meta.json","w"),indent=1)
+PY
+/verif/tools/seeded_matrix.sh -j 1 ${P}_${T} 2>&1 | grep -v "^|" | grep -v WARNING
